@@ -83,7 +83,7 @@ func c09Next(g *prog.Gen, idx int, hist []*prog.Step) *prog.Op {
 	}
 	k := keys[g.R.Intn(len(keys))]
 	vids := c09KnownVids(hist)[k]
-	if focus && g.R.Chance(12) {
+	if focus && g.R.Chance(22) {
 		return &prog.Op{Kind: "putVersioning", Caller: "root", B: b, On: g.R.Chance(50)}
 	}
 	pickVid := func() string {
@@ -171,6 +171,6 @@ func init() {
 	}
 	checks["c09"] = checkDef{"C09",
 		"adaptive programs on a versioned bucket (two thirds with objects that predate enabling): put / copy (incl. from a version) / delete / delete-by-version / batch delete / get- and head-by-version (issued ids, `null`, a never-issued id) / list-versions / enable-suspend / tagging, then ListObjectVersions and a GET of every id ever issued; version ids are read from the implementation's answers and handed to the model. Compared with Model.Gw.step (per-key version stacks). Non-trivial = program reaches the bucket; distinct by op list.",
-		[]checkFn{fam("versions-xattr", false, false, 901, 60, 3000), fam("versions-namedtmp", false, true, 902, 20, 1000)}}
+		[]checkFn{fam("versions-xattr", false, false, 901, 240, 6000), fam("versions-namedtmp", false, true, 902, 60, 2000)}}
 	_ = strings.Join
 }
